@@ -120,3 +120,8 @@ impl Chunk {
     #[verifier::external_body]
     pub fn new(name: &str) -> (r: Chunk) ensures r.instructions@.len() == 0 { unimplemented!() }
 }
+// `Value: Clone` (derived in the real source): the clone is an equal value
+impl Clone for Value {
+    #[verifier::external_body]
+    fn clone(&self) -> (r: Self) ensures r == *self { unimplemented!() }
+}
